@@ -1,5 +1,6 @@
 import Pfst.JsonUtil
 import Pfst.OffsetLemmas
+import Pfst.Clip
 /-! Driver package for C11: `offset` (tree walk) and `params_offset`. -/
 namespace Pfst.Drv.C11
 open Lean Pfst.JsonUtil Pfst.Offset
@@ -72,6 +73,17 @@ def dispatch (f : String) (j : Json) : Option Json :=
         let r := paramsOffset nPut ln endLn ePre putLast sPre
         return ofInts [r.1, r.2.1, r.2.2.1, r.2.2.2]
       | _ => return Json.mkObj [("err", "bad args")]
+  | "C11.clip" => some <| Id.run do
+      let some lens := (get j "lens").bind asInts | return Json.mkObj [("err", "bad lens")]
+      let some cs := (get j "c").bind asArr | return Json.mkObj [("err", "bad coords")]
+      if cs.size != 4 then return Json.mkObj [("err", "bad coords")]
+      let co (x : Json) : Pfst.Clip.Coord := match asInt x with
+        | some i => .idx i
+        | none => .fin
+      match Pfst.Clip.clip (lens.map Int.toNat) (co cs[0]!) (co cs[1]!) (co cs[2]!) (co cs[3]!) with
+      | .ok a b c d => return Json.mkObj [("ok", ofInts [a, b, c, d])]
+      | .errLine => return Json.mkObj [("refused", "line")]
+      | .errCol => return Json.mkObj [("refused", "col")]
   | _ => none
 
 end Pfst.Drv.C11
